@@ -15,10 +15,12 @@
   `AttributeData` variant and slice indexing out of range are explicit `panic` outcomes; an
   `Err` return of `encode_to` (input refused, nothing written) is the `err` outcome.
 
-  NLRI of families outside the phase-1 model (VPN, labeled, EVPN, flowspec, LS, MUP,
-  SR-policy, RTC) are `Nlri.opq`: their wire bytes (or the fact that the encoder panics on /
-  refuses them) are a parameter supplied by the case (measured on the real code), so the
-  framing / chunking logic is still the modelled one.
+  NLRI of the families outside IPv4/IPv6 unicast/multicast are `Nlri.opq`.  For VPN, labeled
+  unicast, Flow Specification (+VPN) and EVPN the case carries the NLRI's structure (`NStruct`) and
+  the NLRI encoder is modelled (`NStruct.encode`; decoder: `Reader.NStruct.decodeLike`).  For LS,
+  MUP, SR-policy and RTC the wire bytes (or the fact that the encoder panics on / refuses them)
+  are a parameter supplied by the case (measured on the real code).  The framing / chunking
+  logic is the modelled one for all of them.
 
   Import-free (core only).
 -/
@@ -134,11 +136,36 @@ structure Rd where
   assigned : Nat
   deriving DecidableEq, Repr, Inhabited
 
-/-- Structured NLRI of the label-carrying families (VPN-IPv4/IPv6: RFC 4364 / 4659, labeled unicast: RFC 8277),
-    as the harness reads it off the Rust value through public fields -/
+/-- `flowspec.rs::Op`: operator octet (its two length bits are recomputed from the value) and value -/
+structure FOp where
+  bits : Nat
+  value : Nat
+  deriving DecidableEq, Repr, Inhabited
+
+/-- Flow Specification component (RFC 8955 §4.2.2 / RFC 8956 §3): a prefix component (types 1, 2; `off` = the IPv6
+    offset, 0 for IPv4) or a list of operator/value pairs (types 3 .. 13) -/
+inductive FComp where
+  | pfx (ty mask off : Nat) (addr : Bytes)
+  | num (ty : Nat) (ops : List FOp)
+  deriving DecidableEq, Repr, Inhabited
+
+/-- EVPN routes (RFC 7432 §7.1 - §7.4, RFC 9136 §3.1); `ip` = 0 / 4 / 16 address octets -/
+inductive EvpnR where
+  | ead (rd : Rd) (esi : Bytes) (etag label : Nat)
+  | macip (rd : Rd) (esi : Bytes) (etag : Nat) (mac ip : Bytes) (l1 : Nat) (l2 : Option Nat)
+  | imet (rd : Rd) (etag : Nat) (ip : Bytes)
+  | es (rd : Rd) (esi : Bytes) (ip : Bytes)
+  | pfx (rd : Rd) (esi : Bytes) (etag plen : Nat) (ip gw : Bytes) (label : Nat)
+  deriving DecidableEq, Repr, Inhabited
+
+/-- Structured NLRI of the families whose NLRI codec is modelled (VPN-IPv4/IPv6: RFC 4364 / 4659, labeled unicast:
+    RFC 8277, Flow Specification incl. its VPN form: RFC 8955 / 8956, EVPN route types 1 - 5), as the harness reads it
+    off the Rust value through public fields -/
 inductive NStruct where
   | vpn (labels : List Nat) (rd : Rd) (addr : Bytes) (mask : Nat)
   | lab (labels : List Nat) (addr : Bytes) (mask : Nat)
+  | flow (v6 : Bool) (rd : Option Rd) (comps : List FComp)
+  | evpn (r : EvpnR)
   deriving DecidableEq, Repr, Inhabited
 
 /-- what is known about an NLRI outside the IPv4/IPv6 model from its INPUT: `wire` = it has a wire form by its
@@ -491,6 +518,59 @@ def Rd.bytes (r : Rd) : Bytes :=
   if r.ty = 0 then be16 0 ++ be16 r.admin ++ be32 r.assigned
   else be16 r.ty ++ be32 r.admin ++ be16 r.assigned
 
+/-! ### Flow Specification components (`flowspec.rs`) -/
+
+def be64 (n : Nat) : Bytes := be32 (n / 4294967296) ++ be32 n
+
+/-- `Op::len_order` -/
+def FOp.order (v : Nat) : Nat := if v ≤ 255 then 0 else if v ≤ 65535 then 1 else if v ≤ 4294967295 then 2 else 3
+
+/-- `Op::encode`: `bits | (order << 4)`, then the value in 1 / 2 / 4 / 8 octets -/
+def FOp.bytes (o : FOp) : Bytes :=
+  let ord := FOp.order o.value
+  (o.bits ||| (ord <<< 4)) ::
+    (if ord = 0 then [o.value % 256] else if ord = 1 then be16 o.value else if ord = 2 then be32 o.value else be64 o.value)
+
+/-- `FlowspecV4Component::encode` / `FlowspecV6Component::encode` (`encode_ipv4_prefix` / `encode_ipv6_prefix`:
+    `net.addr.octets()[i]` for `i < mask.div_ceil(8)`) -/
+def FComp.bytes (v6 : Bool) : FComp → Out Bytes
+  | .pfx ty mask off addr =>
+      if ceil8 mask ≤ addr.length then .ok (ty :: mask :: ((if v6 then [off] else []) ++ addr.take (ceil8 mask))) else .panic
+  | .num ty ops => .ok (ty :: ops.flatMap FOp.bytes)
+
+def compsBytes (v6 : Bool) : List FComp → Out Bytes
+  | [] => .ok []
+  | c :: rest =>
+      match c.bytes v6 with
+      | .ok b => (match compsBytes v6 rest with
+          | .ok r => .ok (b ++ r)
+          | e => e)
+      | e => e
+
+/-! ### EVPN routes (`evpn.rs`) -/
+
+/-- `encode_evpn_label`: the low 24 bits, big-endian -/
+def evpnLabel (l : Nat) : Bytes := [l / 65536 % 256, l / 256 % 256, l % 256]
+
+/-- the address-length octet in bits + the address (`None` = a zero length octet) -/
+def evpnIp (ip : Bytes) : Bytes := (8 * ip.length) :: ip
+
+/-- the route body of `EvpnNlri::encode` -/
+def EvpnR.body : EvpnR → Bytes
+  | .ead rd esi etag label => rd.bytes ++ esi ++ be32 etag ++ evpnLabel label
+  | .macip rd esi etag mac ip l1 l2 =>
+      rd.bytes ++ esi ++ be32 etag ++ [48] ++ mac ++ evpnIp ip ++ evpnLabel l1 ++
+        (match l2 with | some l => evpnLabel l | none => [])
+  | .imet rd etag ip => rd.bytes ++ be32 etag ++ evpnIp ip
+  | .es rd esi ip => rd.bytes ++ esi ++ evpnIp ip
+  | .pfx rd esi etag plen ip gw label =>
+      -- a gateway of the other address family is written as zeros
+      rd.bytes ++ esi ++ be32 etag ++ [plen] ++ ip ++ (if gw.length = ip.length then gw else List.replicate ip.length 0) ++
+        evpnLabel label
+
+def EvpnR.ty : EvpnR → Nat
+  | .ead .. => 1 | .macip .. => 2 | .imet .. => 3 | .es .. => 4 | .pfx .. => 5
+
 /-- `Nlri::encode` (`withdrawn = false`) / `Nlri::encode_withdrawn` for the label-carrying families:
     `VpnV4Nlri/VpnV6Nlri::encode`, `LabeledV4Nlri/LabeledV6Nlri::encode` behind the `total_bits() > 255` guard of
     `Nlri::encode`; a withdrawn labeled prefix carries the compatibility field 0x800000 instead of its labels. -/
@@ -506,6 +586,13 @@ def NStruct.encode (withdrawn : Bool) : NStruct → Out Bytes
       else if 24 * ls.length + mask > 255 then .err
       else if ceil8 mask ≤ addr.length then .ok ([24 * ls.length + mask] ++ stackBytes ls ++ addr.take (ceil8 mask))
       else .panic
+  -- `FlowspecV4Nlri::encode` .. `FlowspecVpnV6Nlri::encode` behind `Nlri::put_flowspec`
+  | .flow v6 rd comps =>
+      match compsBytes v6 comps with
+      | .ok b => putFlowspec ((match rd with | some r => r.bytes | none => []) ++ b)
+      | e => e
+  -- `EvpnNlri::encode`: type, `data.len() as u8`, data
+  | .evpn r => .ok (r.ty :: (r.body.length % 256) :: r.body)
 
 /-- `Nlri::encode` / `Nlri::encode_withdrawn`.  For a family outside the IPv4/IPv6 model: the modelled NLRI codec when
     the structure is known, else the probe (taken in the direction it is used). -/
